@@ -81,7 +81,7 @@ TEXT = {
                 'Proof.Undo to depth 1..3 and every redo continuation explored; after each undo the held pairs and the proof '
                 'must be the canonical ones of held \\ added in the pre-block forest and verify against the previous stump. The same undo is also run with 65536 more additions in the undone block (the expectation does not depend on the number of additions), and the random driver\'s light client undoes blocks and is validated by TLC (spec/CoreTrace.tla, R->T).',
         'design_ref': 'DESIGN.md section 5 (C08)',
-        'note': COMMON_NOTE + ' Known finding C08-F1 (leaves lost when the undone block overwrote an empty root) is reported as KNOWN-FINDING.',
+        'note': COMMON_NOTE,
         'technique': 'TLA+ spec with undo stack + TLC BFS, Proof.Undo behaviours replayed (G->R); driver light client validated by TLC (R->T)',
     },
     'C14': {
